@@ -52,7 +52,9 @@ func (s *Stash) LoadExpanded(filename string) {
 			}
 			panic(err)
 		}
-		if 0 < len(line) {
+		// Empty lines separate forms but an empty line inside a form is part
+		// of the form.
+		if 0 < len(line) || 0 < len(form) {
 			if bytes.ContainsRune(line, '\t') {
 				for _, sub := range bytes.Split(line, []byte{'\t'}) {
 					buf = append(buf, sub...)
@@ -62,9 +64,7 @@ func (s *Stash) LoadExpanded(filename string) {
 			} else {
 				buf = append(buf, line...)
 				buf = append(buf, '\n')
-				if 0 < len(form) || 0 < len(line) {
-					form = append(form, []rune(string(line)))
-				}
+				form = append(form, []rune(string(line)))
 			}
 			if fullForm(buf) {
 				s.forms = append(s.forms, form)
